@@ -168,8 +168,10 @@ class Ctx:
             self.distinct.add(hashlib.md5(repr(desc).encode()).hexdigest())
         if tag is not None:
             self.dist[tag] = self.dist.get(tag, 0) + 1
-        if sample and len(self.samples) < 6 and nontrivial:
-            self.samples.append(desc)
+        # samples spread over the run (geometric spacing) rather than the first few, which are the most trivial
+        if sample and nontrivial and len(self.samples) < 8 and len(self.distinct) in (1, 5, 40, 200, 900, 2500, 6000, 15000):
+            if not self.samples or self.samples[-1] is not desc:
+                self.samples.append(desc)
 
     def count(self, tag, n=1):
         self.dist[tag] = self.dist.get(tag, 0) + n
@@ -273,7 +275,7 @@ class Ctx:
                 'theorems': [{'name': r['name'], 'status': r.get('status'), 'statement': r.get('statement'),
                               'axioms': r.get('axioms'), 'ok': r['ok']} for r in self.audit_res],
                 'evaluations': self.evaluations, 'distinct_nontrivial': len(self.distinct),
-                'rule': self.rule, 'samples': self.samples[:6], 'distribution': self.dist,
+                'rule': self.rule, 'samples': self.samples[:8], 'distribution': self.dist,
                 'exhaustive': self.exhaustive,
                 'known_findings_reobserved': {k: n for k, (kf, n) in seen_known.items()},
                 'broken': [b['what'] for b in self.broken],
